@@ -8,7 +8,8 @@ same (pre-state, call tree).
   end                                       -> st <n> (<owner> <key> <val>)*   the store under the implementation model
   specend                                   -> st ...                          the store under the specification
 Tree tokens: [ nodes ] ; P k v ; D k ; N e ; Q k [..] ; C c fl [..] ; I [..] ;
-  T [body] hasC [cat] hasF [fin] ; X ; A ; G tok to amt fl hasCb [cb] ; F v fl ; B a fl ; U a fl ; Y d fl
+  T [body] hasC [cat] hasF [fin] ; X ; A ; G tok to amt fl hasCb [cb] ; F v fl ; B a fl ; U a fl ; Y d fl ;
+  M fl ; Z fl ; R role v fl ; W c fee fl ; V c fl ; E to amt fl hasCb [cb] ; O on fl   (txg | tree: out-of-gas transaction)
 -/
 import NeoModel.Base.Proto
 import NeoModel.Model.Exec
@@ -66,11 +67,34 @@ mutual
     | "F" :: v :: fl :: r => do
       some (.native (.setFee (← v.toNat?)) (Flags.ofNat (← fl.toNat?)) .skip, r)
     | "B" :: a :: fl :: r => do
-      some (.native (.block (← a.toNat?)) (Flags.ofNat (← fl.toNat?)) .skip, r)
+      -- Policy.blockAccount = revoke the account's votes, the deferred GAS minting, the block itself
+      let a ← a.toNat?
+      let f := Flags.ofNat (← fl.toNat?)
+      some (.seq (.native (.revoke a) f .skip) (.seq (.native (.mint a) f .skip) (.native (.block a) f .skip)), r)
     | "U" :: a :: fl :: r => do
       some (.native (.unblock (← a.toNat?)) (Flags.ofNat (← fl.toNat?)) .skip, r)
     | "Y" :: d :: fl :: r => do
       some (.native (.deploy (← d.toNat?)) (Flags.ofNat (← fl.toNat?)) .skip, r)
+    | "M" :: fl :: r => do
+      some (.native .update (Flags.ofNat (← fl.toNat?)) .skip, r)
+    | "Z" :: fl :: r => do
+      some (.native .destroy (Flags.ofNat (← fl.toNat?)) .skip, r)
+    | "R" :: role :: v :: fl :: r => do
+      some (.native (.designate (← role.toNat?) (← v.toNat?)) (Flags.ofNat (← fl.toNat?)) .skip, r)
+    | "W" :: c :: fee :: fl :: r => do
+      some (.native (.setWl (← c.toNat?) (← fee.toNat?)) (Flags.ofNat (← fl.toNat?)) .skip, r)
+    | "V" :: c :: fl :: r => do
+      some (.native (.delWl (← c.toNat?)) (Flags.ofNat (← fl.toNat?)) .skip, r)
+    | "E" :: to :: amt :: fl :: hasCb :: r => do
+      -- NEO.transfer = the method proper, then the deferred GAS minting for sender and receiver
+      let (cb, r) ← pList r
+      let to ← to.toNat?
+      let f := Flags.ofNat (← fl.toNat?)
+      some (.seq (.native (.neoXfer to (← amt.toNat?) (to < 4)) f (if hasCb == "1" then cb else .skip))
+        (.seq (.native (.mint 99) f .skip) (.native (.mint to) f .skip)), r)
+    | "O" :: on :: fl :: r => do
+      let f := Flags.ofNat (← fl.toNat?)
+      some (.seq (.native (.vote (on != "0")) f .skip) (.native (.mint 99) f .skip), r)
     | _ => none
 end
 
@@ -95,7 +119,7 @@ def showStore (l : Log) : String :=
   let ks := dedup ((keysOf l).mergeSort keyLe)
   let ents := ks.filterMap fun k =>
     match l.get k with
-    | some v => if k.1 ≥ 100 && k.1 < 102 && v == 0 then none else some s!" {k.1} {k.2} {v}"
+    | some v => if (k.1 == 100 || k.1 == 101 || k.1 == 114 || k.1 == 115) && v == 0 then none else some s!" {k.1} {k.2} {v}"
     | none => none
   s!"st {ents.length}{String.join ents}"
 
@@ -106,6 +130,7 @@ structure DState where
   cur : Log := []       -- block cache under the implementation model
   curS : Log := []      -- the same under the specification
   tree : Tree := .skip
+  oog : Bool := false
 
 def pNats : Nat → Toks → List Nat → Option (List Nat × Toks)
   | 0, ts, acc => some (acc.reverse, ts)
@@ -133,7 +158,13 @@ def step (s : DState) (ws : List String) : DState × String :=
       let o := implRun s.cur t
       ({ s with cur := o.store, tree := t }, (if o.halt then "HALT " else "FAULT ") ++ showEvents o.raw)
     | _ => (s, "bad-tree")
+  | "txg" :: "|" :: ts =>
+    -- a transaction that runs out of gas at a point the model does not know: FAULT, no change
+    match pList ts with
+    | some (t, []) => ({ s with tree := t, oog := true }, "FAULT")
+    | _ => (s, "bad-tree")
   | ["spec"] =>
+    if s.oog then ({ s with oog := false }, "FAULT ev 0") else
     let o := specRun s.curS s.tree
     ({ s with curS := o.store }, (if o.halt then "HALT " else "FAULT ") ++ showEvents o.events)
   | ["end"] => (s, showStore s.cur)
